@@ -2,7 +2,11 @@ module verif/harness
 
 go 1.23.0
 
-require github.com/folbricht/desync v0.0.0
+require (
+	github.com/folbricht/desync v0.0.0
+	github.com/pkg/xattr v0.4.9
+	golang.org/x/sys v0.31.0
+)
 
 require (
 	cloud.google.com/go v0.110.0 // indirect
@@ -33,7 +37,6 @@ require (
 	github.com/modern-go/reflect2 v1.0.2 // indirect
 	github.com/pkg/errors v0.9.1 // indirect
 	github.com/pkg/sftp v1.13.5 // indirect
-	github.com/pkg/xattr v0.4.9 // indirect
 	github.com/rivo/uniseg v0.2.0 // indirect
 	github.com/sirupsen/logrus v1.9.0 // indirect
 	go.opencensus.io v0.24.0 // indirect
@@ -41,7 +44,6 @@ require (
 	golang.org/x/net v0.38.0 // indirect
 	golang.org/x/oauth2 v0.7.0 // indirect
 	golang.org/x/sync v0.12.0 // indirect
-	golang.org/x/sys v0.31.0 // indirect
 	golang.org/x/term v0.30.0 // indirect
 	golang.org/x/text v0.23.0 // indirect
 	golang.org/x/xerrors v0.0.0-20220907171357-04be3eba64a2 // indirect
